@@ -171,6 +171,8 @@ class C09(CheckBase):
         listo = rng.weighted([(3, 7), (2, 0), (3, rng.below(8))])
         kind = rng.weighted([(5, 'prefix'), (2, 'rfail'), (1, 'chunk'), (4, 'corrupt'), (3, 'seq')]
                             + ([(3, 'prefix_all'), (2, 'corrupt_all')] if tier == 'thorough' else [(1, 'prefix_all'), (1, 'corrupt_all')]))
+        if rng.chance(0.012):
+            kind = 'many'
         delivery = rng.weighted([(4, 'file'), (2, 'stdin_file'), (2, 'stdin_pipe')])
         case = {'kind': kind, 'dialect': d, 'listo': listo, 'delivery': delivery}
         if kind in ('prefix', 'rfail', 'chunk', 'corrupt', 'prefix_all', 'corrupt_all'):
@@ -185,6 +187,14 @@ class C09(CheckBase):
                 case['chunk'] = {'seed': rng.next64() & 0xFFFFFFFF, 'max': rng.choice([1, 2, 3, 7, 64, 300])}
             elif kind == 'corrupt':
                 case['mut'] = self.gen_corruption(rng, f)
+        elif kind == 'many':
+            # hundreds of inputs on one command line, most or all of them failing: the exit status is that of the worst
+            # file however many there are
+            f = self.gen_file(rng, d, small=True)
+            case['file'] = f
+            case['mut'] = self.gen_cut(rng, f)
+            case['n'] = rng.choice([255, 256, 256, 257, 512, 300, 1024])
+            case['pattern'] = rng.choice(['all-truncated', 'all-missing', 'truncated-then-one-intact', 'intact-then-truncated', 'alternating-missing-truncated'])
         else:
             files = []
             for _ in range(rng.randint(1, 4)):
@@ -227,6 +237,9 @@ class C09(CheckBase):
         fam = 'BE' if bp.is_big_endian(case['dialect']) else 'LE'
         if kind == 'seq':
             self.run_seq(case, ctx, out, fam)
+            return out
+        if kind == 'many':
+            self.run_many(case, ctx, out, fam)
             return out
         f = dict(case['file'])
         intact = materialise(f)
@@ -394,6 +407,48 @@ class C09(CheckBase):
                         % (kinds, n, r['stdout'][n:n + 24], solo_out[n:n + 24]), desc, case)
         if r.code != solo_max:
             out.violate('C09.d', 'files %s in one run: exit status %d, but the per-file statuses give %d' % (kinds, r.code, solo_max), desc, case)
+
+    def run_many(self, case, ctx, out, fam):
+        f = dict(case['file'])
+        ok = materialise(f)
+        bad = materialise(dict(f, mut=case['mut'])) if case.get('mut') else ok[:max(1, len(ok) // 2)]
+        files = {'ok.bbc': ok, 'bad.bbc': bad}
+        solo = {}
+        for name in ('ok.bbc', 'bad.bbc', 'gone.bbc'):
+            r = self.run_tool(ctx, out, case, [(name, files.get(name))], 'file', ref=True)
+            if r.code is None:
+                out.skip('solo-run-abnormal')
+                return
+            solo[name] = r
+        n = case['n']
+        pat = case['pattern']
+        if pat == 'all-truncated':
+            names = ['bad.bbc'] * n
+        elif pat == 'all-missing':
+            names = ['gone.bbc'] * n
+        elif pat == 'truncated-then-one-intact':
+            names = ['bad.bbc'] * n + ['ok.bbc']
+        elif pat == 'intact-then-truncated':
+            names = ['ok.bbc'] + ['bad.bbc'] * n
+        else:
+            names = ['gone.bbc', 'bad.bbc'] * (n // 2)
+        sb = ctx.sb
+        sb.reset(files)
+        argv = ['bbcbasic_to_text', '--dialect', case['dialect'], '--listo', str(case['listo'])] + names
+        r = ctx.sk.run(sb, ctx.exe('rel', 'bbcbasic_to_text'), argv, wall_ms=20000, steps=400000)
+        out.add_run(r)
+        out.fault('history', True)
+        out.sig('many', fam, case['listo'], pat, n, r.exit_class(), r['log_hash'])
+        desc = {'kind': 'many', 'family': fam}
+        want_out = b''.join(solo[x]['stdout'] for x in names)
+        want_code = max(solo[x].code for x in names)
+        what = '%d inputs (%s) in one run' % (len(names), pat)
+        if r.code is None:
+            out.violate('C09.d', '%s: abnormal termination %s though each file alone exits normally' % (what, r.exit_class()), desc, case)
+        elif r.code != want_code:
+            out.violate('C09.d', '%s: exit status %d, but the per-file statuses give %d' % (what, r.code, want_code), desc, case)
+        elif r['stdout'] != want_out:
+            out.violate('C09.d', '%s: listing differs from the concatenation of each file\'s own listing' % what, desc, case)
 
     # ------------------------------------------------------------ shrinking
     def shrink(self, case, clause):
